@@ -33,8 +33,18 @@ def Table.lines (t : Table) : List (List (Str × Bool)) := t.header.toList ++ t.
 /-- the file: one line per row, fields joined by `d`, lines ended by `eol` LF -/
 def Table.render (d : Char) (eol : Str) (t : Table) : Str := renderFile eol (t.lines.map (renderLine d))
 
-/-- the text of the cells of a row as the parser hands them over (trimmed when `trim_ws` is on) -/
-def fieldsOf (trimWs : Bool) (l : List (Str × Bool)) : List Str := l.map (fun p => if trimWs then trim p.1 else p.1)
+/-- the text of the cells of a row as the parser hands them over: between their quotes when the
+    cell was written quoted and the dialect keeps quotes, trimmed when `trim_ws` is on -/
+def fieldsOf (trimWs keep : Bool) (l : List (Str × Bool)) : List Str :=
+  l.map (fun p => fieldOut { delim := ',', trimWs := trimWs } (fieldSeen { delim := ',', keepQuotes := keep } p.1 p.2))
+
+theorem fieldsOf_length (trimWs keep : Bool) (l : List (Str × Bool)) : (fieldsOf trimWs keep l).length = l.length := by
+  simp [fieldsOf]
+
+/-- with `REMOVE_QUOTES` (the default) the fields are the cells -/
+theorem fieldsOf_remove (trimWs : Bool) (l : List (Str × Bool)) :
+    fieldsOf trimWs false l = l.map (fun p => if trimWs then trim p.1 else p.1) := by
+  simp [fieldsOf, fieldOut, fieldSeen]
 
 structure WellFormed (d : Char) (eol : Str) (t : Table) : Prop where
   d0 : d ≠ '\x00'
@@ -51,18 +61,19 @@ structure WellFormed (d : Char) (eol : Str) (t : Table) : Prop where
 
 /-- the columns are consistently typed: the cells of every row convert under the domains the
     first data row establishes, and the output column is all numbers or all labels (≥ 2 classes) -/
-structure Typed (o : NumOracle F) (outIdx : Option Nat) (trimWs : Bool) (t : Table) : Prop where
-  rows : ∀ r ∈ t.rows, RowOK o (kinds o true (prep outIdx (fieldsOf trimWs t.row0))) (prep outIdx (fieldsOf trimWs r))
-  cls : Regr o (kinds o true (prep outIdx (fieldsOf trimWs t.row0))) (t.rows.map (fun r => prep outIdx (fieldsOf trimWs r))) ∨
-        (Classif o (kinds o true (prep outIdx (fieldsOf trimWs t.row0))) (t.rows.map (fun r => prep outIdx (fieldsOf trimWs r))) ∧
-         (specRows o (kinds o true (prep outIdx (fieldsOf trimWs t.row0))) []
-            (t.rows.map (fun r => prep outIdx (fieldsOf trimWs r)))).1.length ≠ 1)
+structure Typed (o : NumOracle F) (outIdx : Option Nat) (trimWs keep : Bool) (t : Table) : Prop where
+  rows : ∀ r ∈ t.rows, RowOK o (kinds o true (prep outIdx (fieldsOf trimWs keep t.row0))) (prep outIdx (fieldsOf trimWs keep r))
+  cls : Regr o (kinds o true (prep outIdx (fieldsOf trimWs keep t.row0))) (t.rows.map (fun r => prep outIdx (fieldsOf trimWs keep r))) ∨
+        (Classif o (kinds o true (prep outIdx (fieldsOf trimWs keep t.row0))) (t.rows.map (fun r => prep outIdx (fieldsOf trimWs keep r))) ∧
+         (specRows o (kinds o true (prep outIdx (fieldsOf trimWs keep t.row0))) []
+            (t.rows.map (fun r => prep outIdx (fieldsOf trimWs keep r)))).1.length ≠ 1)
 
-theorem records_of_table (d : Char) (eol : Str) (t : Table) (trimWs : Bool) (filter : List Str → Bool)
+theorem records_of_table (d : Char) (eol : Str) (t : Table) (trimWs keep : Bool) (hook : Hook)
     (hwf : WellFormed d eol t) :
-    records { delim := d, trimWs := trimWs } filter (splitLines (t.render d eol)) =
-      (t.lines.map (fieldsOf trimWs)).filter filter := by
-  have := records_render { delim := d, trimWs := trimWs } rfl hwf.d0 hwf.dq hwf.dn eol hwf.eol_ok filter t.lines
+    records { delim := d, trimWs := trimWs, keepQuotes := keep } hook (splitLines (t.render d eol)) =
+      (t.lines.map (fieldsOf trimWs keep)).filterMap hook := by
+  have := records_render { delim := d, trimWs := trimWs, keepQuotes := keep } hwf.d0 hwf.dq hwf.dn eol hwf.eol_ok
+    hook t.lines
     (fun l hl => by
       intro h
       have := hwf.rect l hl
